@@ -16,3 +16,6 @@ verif_exe(bsx bsx.cpp)
 add_executable(vtool vtool.c)
 
 verif_exe(ninjadump ninjadump.cpp)
+
+add_library(killshim SHARED killshim.c)
+target_link_libraries(killshim PRIVATE dl)
